@@ -396,6 +396,10 @@ class ShimQueue:
         self._s = sched
         self._d = collections.deque()
 
+    @property
+    def queue(self):
+        return self._d
+
     def put(self, item, block=True, timeout=None):
         self._s.point("queue.put")
         self._d.append(item)
